@@ -260,6 +260,28 @@ def check(run):
                     and isinstance(st.targets[0].value, ast.Attribute) and norm(st.targets[0].value.value) == 'self':
                 stores[st.targets[0].value.attr] = st
         gs_st, ps_st = stores.get('gs'), stores.get('ps')
+        # path clause: every path through embed that writes one of the two arrays writes the other (an early exit that copies
+        # the strings only leaves the phases of an earlier embed / of the identity in place)
+        from ..rules import guards as _guards
+        for pth, end in _guards.paths(f.node.body):
+            if end == 'raise':
+                continue
+            wr = {}
+            for x in pth:
+                if isinstance(x, tuple):
+                    continue
+                for nd in ast.walk(x):
+                    if isinstance(nd, ast.Attribute) and isinstance(nd.ctx, ast.Store) and norm(nd.value) == 'self' and nd.attr in ('gs', 'ps'):
+                        wr.setdefault(nd.attr, x)
+                    if isinstance(nd, ast.Subscript) and isinstance(nd.ctx, ast.Store) and isinstance(nd.value, ast.Attribute) \
+                            and norm(nd.value.value) == 'self' and nd.value.attr in ('gs', 'ps'):
+                        wr.setdefault(nd.value.attr, x)
+            if len(wr) == 1:
+                have = next(iter(wr))
+                run.violation('R13.embed', f, wr[have], 'a path through embed writes self.%s and leaves self.%s as it was: strings and phases of the '
+                              'small map must be written together on every path' % (have, 'ps' if have == 'gs' else 'gs'))
+            elif len(wr) == 2:
+                run.check(True, 'R13.embed', f, wr['gs'], '')
         if gs_st is None or ps_st is None:
             run.violation('R13.embed', f, 'embed', 'embed must write both the strings block and the phases of the small map')
         else:
